@@ -1,3 +1,61 @@
-From TT Require Import Lib.BytesL.
-Theorem placeholder : True. Proof. exact I. Qed.
-Print Assumptions placeholder.
+(* C14 — Idle and establishment timeouts fire when, and only when, they should.
+   The idle timer is proved on the timed model of pipe.rs (exact virtual clock: a timer fires at
+   its deadline; a late real timer only delays the close). *)
+From Coq Require Import List NArith Bool.
+From TT Require Import Lib.BytesL Model.Pipe Generated.PipeFacts Generated.TimeoutFacts Proofs.PipeProofs.
+Import ListNotations.
+Open Scope N_scope.
+
+(* only when: a close by the idle timer means neither direction transferred during the last T;
+   equivalently a tunnel with a transfer in every period of length T is never closed by it *)
+Theorem no_early_close :
+  forall fuel f T s s',
+    drun fuel f T s = (DTimedOut, s') -> mode s' = Both ->
+    la (pl s') < now s' - T /\ la (pr s') < now s' - T.
+Proof. exact no_early_close_proof. Qed.
+Print Assumptions no_early_close.
+
+(* last_activity is the instant of the last transfer: it moves only when a chunk is processed
+   and is not touched by the restart of the copy loops (PIPE_LA_ON_TRANSFER_ONLY, from pipe.rs) *)
+Theorem last_activity_is_last_transfer :
+  (forall f t p, la (apply_complete f t p) = la p \/ la (apply_complete f t p) = t)
+  /\ (forall t p, la (restart PIPE_LA_ON_TRANSFER_ONLY t p) = la p).
+Proof. split; [exact la_moves_on_transfer|exact restart_keeps_la]. Qed.
+Print Assumptions last_activity_is_last_transfer.
+
+(* when: from ANY reachable state in which both directions wait for input that never comes, the
+   tunnel is closed with TimedOut no later than 2T after the last transfer (Full) *)
+Theorem idle_closed_within_2T :
+  forall T el er s,
+    0 < T -> Reach T el er s -> quiet (pl s) -> quiet (pr s) -> mode s = Both ->
+    exists s', drun 3 PIPE_LA_ON_TRANSFER_ONLY T s = (DTimedOut, s')
+               /\ now s' <= N.max (la (pl s)) (la (pr s)) + 2 * T.
+Proof. exact idle_closed_within_2T_reachable. Qed.
+Print Assumptions idle_closed_within_2T.
+
+(* establishment and handshake timeouts: the code still wraps the connect in
+   connection_establishment_timeout (expiry -> ConnectionError::Timeout -> 502 / X-Warning 302),
+   the TLS accept in tls_handshake_timeout (expiry -> connection dropped), and runs the pipe with
+   tcp_connections_timeout; dropping the futures releases the sockets they own *)
+Theorem establishment_timeouts_in_place :
+  CONNECT_UNDER_ESTABLISHMENT_TIMEOUT = true /\ TIMEOUT_REPORTED_AS_502_302 = true
+  /\ TLS_ACCEPT_UNDER_HANDSHAKE_TIMEOUT = true /\ PIPE_RUN_WITH_TCP_TIMEOUT = true
+  /\ PIPE_EXPIRY_AS_MODELLED = true /\ PIPE_AWAITS_AS_MODELLED = true.
+Proof. repeat split; exact eq_refl. Qed.
+Print Assumptions establishment_timeouts_in_place.
+
+(* Non-vacuity: fully idle tunnel closes at 2T; traffic exactly every T keeps it open; the old
+   behaviour (last_activity refreshed on restart) never closes under the exact clock *)
+Definition idle_env : penv := {| reads := []; writes := []; waits := []; eof_err := false; flushes := [] |}.
+Example ex_idle : match duplex true 1000 idle_env idle_env with (DTimedOut, s) => now s = 2000 | _ => False end.
+Proof. vm_compute. reflexivity. Qed.
+Example ex_every_T :
+  match duplex true 1000 {| reads := [RChunk 1000 [1]; RChunk 2000 [2]; RChunk 3000 [3]]; writes := [];
+                            waits := []; eof_err := false; flushes := [] |} idle_env with
+  | (DTimedOut, s) => now s = 5000 /\ delivered (pl s) = [1; 2; 3]
+  | _ => False
+  end.
+Proof. vm_compute. split; reflexivity. Qed.
+Example ex_old_behaviour_never_closes :
+  fst (duplex false 1000 idle_env idle_env) = DFuel.
+Proof. vm_compute. reflexivity. Qed.
